@@ -620,13 +620,17 @@ def stepMore (s : St) (line : String) : St × String :=
     let kind := (kv args "kind").getD "none"
     match unhex ((kv args "content").getD "-") with
     | some content =>
-      let node? : Option FsNode := if kind == "regular" then some (.regular content) else if kind == "dangling" then some .danglingSymlink else none
+      let node? : Option FsNode := if kind == "regular" then some (.regular content) else if kind == "dangling" then some .danglingSymlink
+        else if kind == "symlink" then some (.symlinkTo content)
+        else if kind == "devnull" || kind == "fifo" || kind == "dir" then some .special else none
       let w : FsWorld := { nodes := match node? with | some n => [("p", n)] | none => [] }
       let r := writerInitPath w "p"
       if r.1 then (s, "ok")
       else match r.2.lookup "p" with
         | some (.regular c) => (s, "null " ++ hex c)
         | some .danglingSymlink => (s, "null dangling")
+        | some (.symlinkTo c) => (s, "null " ++ hex c)
+        | some .special => (s, "null special")
         | none => (s, "null")
     | none => (s, "bad-op")
   | ["r.close", iid] =>
